@@ -58,7 +58,7 @@ def check(ctx):
         return
     if not plain:
         # another loop form (iterator / while / helper): decide the same facts on unrollings of the whole function
-        ctx.cov["loop_form"] = "not the plain for-loop form: decided on symbolic unrollings of the whole function (lengths 0..4)"
+        ctx.cov["loop_form"] = "not the plain for-loop form: decided on symbolic unrollings of the whole function (lengths 0..17)"
         return unrolled(ctx, f, site)
     ctx.cov["loop_form"] = "plain for loop over the argument: loop-body analysis (induction over all lengths)"
     ctx.require(ok_shape, "C20.O2", "exactly one loop, at the top level of crc7", f"crc7 has {len(loops)} loops ({len(top_loops)} at top level) and returns that bypass them; expected one pass over the data", site=site, key="C20.O2|loops")
@@ -203,12 +203,14 @@ def history_after_failed_call(ctx, f, site):
 
 
 def unrolled(ctx, f, site):
-    """crc7 on lists of 0..4 symbolic bytes: R(0) == 0 and R(n+1) == S(b_n ^ R(n)) with S := R(1); S is then case-split"""
+    """crc7 on lists of 0..LMAX symbolic bytes: R(0) == 0 and R(n+1) == S(b_n ^ R(n)) with S := R(1); S is then case-split.
+    LMAX = 17 covers block-wise implementations with blocks of up to 8 bytes (lengths 8 and 16 and their neighbours)."""
     from ..values import vkey
 
-    bs = [Sym(f"byte{i}", "num", uid=0) for i in range(4)]
+    LMAX = 17
+    bs = [Sym(f"byte{i}", "num", uid=0) for i in range(LMAX)]
     R = []
-    for n in range(5):
+    for n in range(LMAX + 1):
         def run(itp, w, n=n):
             return itp.call(f, [ListV(list(bs[:n]))], {})
 
@@ -222,7 +224,7 @@ def unrolled(ctx, f, site):
         R.append(ps[0].value)
     ctx.require(isinstance(R[0], int) and not isinstance(R[0], bool) and R[0] == 0, "C20.O2", "empty message -> 0", f"crc7 of the empty message is {R[0]!r}, expected 0 (zero initial value)", site=site, key="C20.O2|init")
     S = R[1]
-    for n in range(1, 4):
+    for n in range(1, LMAX):
         from ..values import App as _App
 
         arg = _subst(_App("xor", (bs[n], R[n])), {})
